@@ -721,3 +721,12 @@ def sp_tri_rule_ok(ex, args, kwargs, node):
                 got = sum(w * r[0] ** a * r[1] ** b * r[2] ** c for w, r in zip(ws, rows))
                 ok = ok and abs(got - exact) <= tol
     return bool(ok)
+
+
+@model("numpy.flatnonzero")
+def np_flatnonzero(ex, args, kwargs, node):
+    (a,) = args
+    if isinstance(a, Arr) and a.rank == 1 and a.kind == "bool":
+        return np_where1(ex, [a], {}, node)[0]
+    r = np_argwhere(ex, [a], {}, node)
+    return r.ghost["sorted_unique_flat"]
